@@ -1101,6 +1101,7 @@ def enum_paths(fn, start, targets, limit=20000, want_env=False, resolve_atoms=Fa
                 for st in fn.blocks[bb]["s"]:
                     if st[0] == "=" and not st[1][1]:
                         env2[st[1][0]] = ("expr", rvalue_expr(fn, st[2], 0, st[1][0])) if not (st[2][0] == "use" and st[2][1][0] == "k" and isinstance(st[2][1][1].get("v"), bool)) else ("const", st[2][1][1]["v"])
+                env2["__blocks__"] = seen | {bb}
                 out.append((bb, list(atoms), env2))
             else:
                 out.append((bb, list(atoms)))
